@@ -129,6 +129,9 @@ func collectUnits(prog *Program, prop string) []*unit {
 					if ap.Tokens && o.Kind == "token" {
 						ok = true
 					}
+					if ap.Calls && o.Kind == "nocall" {
+						ok = true
+					}
 					if o.Kind == "unverified-callee" {
 						ok = true
 					}
